@@ -92,7 +92,7 @@ type upload struct {
 
 // Cfg are the behaviour switches of a host.
 type Cfg struct {
-	Mount           string // "grant" (default), "decline" (202 + upload location), "refuse" (4xx)
+	Mount           string // "grant" (default), "decline" (202 + upload location), "refuse" (4xx), "mixed" (grant or decline per blob: MixedMountGrants)
 	AnonMount       bool   // grant a mount without "from" if any repository has the blob
 	NoHeadDigest    bool   // omit Docker-Content-Digest on HEAD/GET of manifests
 	ReferrersAPI    bool
@@ -677,6 +677,14 @@ func (h *Host) tags(ev *Event, r *http.Request) *response {
 	return resp
 }
 
+// MixedMountGrants is the per-blob decision of a registry in mount mode "mixed".
+func MixedMountGrants(d string) bool {
+	if d == "" {
+		return false
+	}
+	return strings.IndexByte("01234567", d[len(d)-1]) >= 0
+}
+
 func isDigest(s string) bool { return strings.Contains(s, ":") }
 
 // ManifestDigest names a manifest body the way registries do: signed schema1 by payload.
@@ -1014,6 +1022,14 @@ func (h *Host) upload(ev *Event, r *http.Request, body []byte) *response {
 				src, found = rp.Blobs[m], h.Cfg.AnonMount
 			}
 			mode := h.Cfg.Mount
+			if mode == "mixed" {
+				// a registry that decides per blob (quota, storage class, access to the source): declines some, grants others
+				if MixedMountGrants(m) {
+					mode = "grant"
+				} else {
+					mode = "decline"
+				}
+			}
 			if found && (mode == "" || mode == "grant") {
 				rp.Blobs[m] = src
 				ev.Applied = true
